@@ -15,7 +15,7 @@ func init() {
 		ID: "C17", Fn: c17,
 		Rule:        "notation: for every legal move of every corpus position the engine's own UCI string (and the lower-case promotion form) and 8 SAN variants rendered by refchess (with/without x, +/#, =, minimal and full disambiguation) must parse back to exactly that move; negatives (coordinate strings of non-legal moves, SAN of a pinned candidate, SAN with needed disambiguation removed, SAN for a piece that has no such move) must give MoveNone; ValidateMove agrees with membership; encoding: all 65,536 (from,to,type,promotion) combinations x 26 sort values and the full value range -15001..15000 on 512 moves read back field by field; distinct = distinct (position, move, variant) strings + encodings; the one long-lived generator does other work (legal / pseudo-legal generation on another position or in another mode, ValidateMove) between 30% of the notation calls on the same position",
 		Assumptions: []string{"SAN variants of Appendix A; lenient aliases the parser also accepts are not judged"},
-		Required:    []string{"uci_roundtrips", "san_roundtrips", "san_disambig_file", "san_disambig_rank", "san_disambig_both", "san_promotions", "san_castling", "san_checks", "san_mates", "generator_disturbed_between_calls", "neg_uci", "neg_pinned", "neg_ambiguous", "neg_no_such_move", "encodings"},
+		Required:    []string{"uci_roundtrips", "san_roundtrips", "san_disambig_file", "san_disambig_rank", "san_disambig_both", "san_promotions", "san_castling", "san_checks", "san_mates", "generator_disturbed_between_calls", "neg_uci", "neg_uci_wrong_suffix", "neg_pinned", "neg_ambiguous", "neg_no_such_move", "encodings"},
 		MinEvals:    100000,
 	})
 }
@@ -185,6 +185,24 @@ func c17(c *Ctx) {
 			}
 			if mg.ValidateMove(p, toEng(m)) {
 				rep.Viol("validate:illegal-accepted", fmt.Sprintf("ValidateMove(%s)=true for an illegal move in %s", m.UCI(), fen), mk(nil))
+			}
+		}
+		// negative: a legal move's coordinates with a promotion letter it cannot carry, and a
+		// promotion's coordinates with the letter missing or of no piece
+		for k := 0; k < 3 && len(legal) > 0; k++ {
+			m := legal[dr.Intn(len(legal))]
+			u := m.UCI()
+			var s string
+			if m.Kind == rc.Promotion {
+				s = u[:4] + []string{"", "k", "p", "x"}[dr.Intn(4)]
+			} else {
+				s = u + string("qrbnQRBN"[dr.Intn(8)])
+			}
+			rep.Eval(1)
+			rep.Inc("neg_uci_wrong_suffix")
+			disturb()
+			if got := mg.GetMoveFromUci(p, s); got != types.MoveNone {
+				rep.Viol("uci-negative:wrong-promotion-suffix-accepted", fmt.Sprintf("GetMoveFromUci(%q) = %s although that string denotes no legal move in %s", s, got.StringUci(), fen), mk(map[string]interface{}{"string": s}))
 			}
 		}
 		// negative: random coordinate strings / piece-target pairs denoting no legal move
